@@ -77,8 +77,8 @@ def Ctx.notifySubChange (c : Ctx) (t : Topic) (uid actor : Uid) (oldWant oldGive
   else
     let newM := newWant &&& newGiven
     let oldM := oldWant &&& oldGiven
-    let c := if !isPresencer newM ∧ isPresencer oldM then c.presSingleOfflineOffline uid t.name "off+dis" "" "" "" ""
-      else if isPresencer newM ∧ !isPresencer oldM then c.presSingleOffline t uid newM "?unkn+en" "" "" "" "" false
+    let c := if !hearsPres newM ∧ hearsPres oldM then c.presSingleOfflineOffline uid t.name "off+dis" "" "" "" ""
+      else if hearsPres newM ∧ !hearsPres oldM then c.presSingleOffline t uid newM "?unkn+en" "" "" "" "" false
       else c
     -- presSubsOnlineDirect("acs", singleUser = target): target and actor are NOT cleared here
     let c := c.presDirect t { what := "acs", src := "", extra := acs, singleUser := uid, skipSid := skip }
